@@ -340,6 +340,12 @@ def run_property(pid: str, tier: str, seed: int, replay: Optional[str] = None) -
     t0 = time.time()
     ensure_repo_on_path()
     _quiet_logging()
+    for stream_ in (sys.stdout, sys.stderr):
+        try:
+            # a broken encoder under test can hand back lone surrogates; reporting them must not crash the reporter
+            stream_.reconfigure(errors="backslashreplace")  # type: ignore[attr-defined]
+        except Exception:
+            pass
     modname = f"vpbt.props.{pid.lower()}"
     mod = importlib.import_module(modname)
 
